@@ -99,7 +99,8 @@ def run_case(part, case, prange=None):
         if nat != (1 if prim else 0):
             part.violation(key + ":encoding-choice", case, {"native_operators": nat})
         pv, cv = list(passed), list(cross)
-        for pattern in gcheck.patterns(len(segs), prange):
+        pats = [tuple(bool(b) for b in pt) for pt in case["patterns"]] if "patterns" in case else gcheck.patterns(len(segs), prange)
+        for pattern in pats:
             exp, vis, crs = oracle(h, w, segs, pattern, cyc)
             fixes = [gcheck.fix(v, b) for v, b in zip(evars, pattern)]
             got = gcheck.judge(part, key + ("{cross}" if any(crs) and exp else ""), case, pattern, exp, s, fixes)
@@ -117,7 +118,39 @@ def run_case(part, case, prange=None):
                     c = dict(case)
                     c["pattern"] = list(pattern)
                     part.violation(key + ":raises-" + type(e).__name__, c, {"exception": repr(e)[:300]})
-    part.add("frames", (h, w))
+    if "patterns" in case:
+        part.add("scale", (h, w, cyc, str(case["ugp"])))
+    else:
+        part.add("frames", (h, w))
+
+
+def scale_cases(tier):
+    from props.c06 import region_boundary
+
+    out = []
+    big = [(3, 3), (4, 4), (3, 5)] if tier == "quick" else [(3, 3), (4, 4), (3, 5), (5, 5), (4, 7), (6, 6)]
+    for h, w in big:
+        allc = [(y, x) for y in range(h) for x in range(w)]
+        perimeter = region_boundary(h, w, allc)
+        corridor = region_boundary(h, w, graphref.serpentine(h, w))
+        xor = lambda a, b: [p != q for p, q in zip(a, b)]  # noqa: E731
+        orr = lambda a, b: [p or q for p, q in zip(a, b)]  # noqa: E731
+        pats = [perimeter, corridor, [False] * len(perimeter)]
+        # figure eights: two cell squares touching at an interior point (their boundaries cross there)
+        pats.append(orr(region_boundary(h, w, [(0, 0)]), region_boundary(h, w, [(1, 1)])))
+        pats.append(orr(region_boundary(h, w, [(0, 0), (0, 1), (1, 0)]), region_boundary(h, w, [(1, 1), (1, 2), (2, 1), (2, 2)])) if h >= 3 and w >= 3 else perimeter)
+        # two rectangles overlapping in one cell: their boundaries cross twice -> two separate strands
+        if h >= 3 and w >= 3:
+            pats.append(orr(region_boundary(h, w, [(0, 0), (0, 1), (1, 0), (1, 1)]), region_boundary(h, w, [(1, 1), (1, 2), (2, 1), (2, 2)])))
+            pats.append(orr(perimeter, region_boundary(h, w, [(1, 1)])))  # disjoint cycles
+        k = perimeter.index(True)
+        broken = list(perimeter)
+        broken[k] = False
+        pats.append(broken)
+        for cycle in (False, True):
+            for ugp in (False, True):
+                out.append({"shape": [h, w], "cycle": cycle, "api": "main", "ugp": ugp, "cfg": False, "patterns": pats})
+    return out
 
 
 def cases_for(tier):
@@ -143,7 +176,7 @@ def cases_for(tier):
 
 def prepare(tier):
     global _CASES
-    _CASES = cases_for(tier)
+    _CASES = cases_for(tier) + scale_cases(tier)
     return _CASES
 
 
@@ -168,13 +201,14 @@ def main(tier, seed, only=None):
         seed,
         "exploration",
         "BoolGridFrame sizes %s; ALL 2^m segment subsets; single_cycle off/on and the single_cycle_crossable alias; auxiliary and "
-        "native connectivity encodings (17-segment frames: auxiliary only).  Oracle: per-point degree rule (0/1/2/4, no 1 for "
+        "native connectivity encodings (17-segment frames: auxiliary only).  Scale family (not exhaustive): on frames up to 4x4 / 3x5 (thorough 6x6) the perimeter, the serpentine "
+        "boundary, figure eights, two overlapping rectangles (two strands), disjoint cycles, an open perimeter.  Oracle: per-point degree rule (0/1/2/4, no 1 for "
         "cycles, 4 only at interior points) and one strand in the segment graph where the two straight pairs pass through each other "
         "at 4-way points; for every admitted subset OR(returned != expected) over both returned arrays must be UNSAT."
         % ("0x0 .. 2x2 (<= 12 segments)" if tier == "quick" else "0x0 .. 2x2, 0x3, 1x3, 1x4, 2x3 and transposes (<= 17 segments)"),
     )
     run.assumptions = ["encoding + cspuz z3 backend under test; native route via R-native", "3x3 and larger frames rest on the small-scope argument (local degree rules + connectivity of the split graph)"]
-    shards = gcheck.split_shards(cases, lambda c: 1 << nseg(c), 128 if tier == "quick" else 512)
+    shards = gcheck.split_shards(cases, lambda c: 40 * len(c['patterns']) if 'patterns' in c else 1 << nseg(c), 128 if tier == "quick" else 512)
     par.run_shards(run, worker, shards, seed)
     cov = {
         "evaluations": run.c("evaluations"),
